@@ -290,8 +290,7 @@ theorem select_sub_safe (E : Ext) : ∀ f : Nat,
             have hq2 : trimStart q2 = q2 := hl
             split
             · rename_i hb
-              have hhead := head_of_trimmed q2 '{' hq2 hb
-              have hsl := ihL q2 [] (Or.inl hhead)
+              have hsl := ihL (trimStart q2) [] (Or.inl hb)
               split
               · rename_i subs r hs; rw [hs] at hsl; exact hsl
               · trivial
